@@ -39,6 +39,7 @@ import (
 	"github.com/tink-crypto/tink-go/v2/verifharness/internal/detrand"
 	"github.com/tink-crypto/tink-go/v2/verifharness/internal/evid"
 	"github.com/tink-crypto/tink-go/v2/verifharness/internal/gen"
+	"github.com/tink-crypto/tink-go/v2/verifharness/internal/keys"
 	"github.com/tink-crypto/tink-go/v2/verifharness/internal/legacykm"
 	"github.com/tink-crypto/tink-go/v2/verifharness/internal/tk"
 )
@@ -461,6 +462,155 @@ func builders() []builder {
 				}},
 			}
 		}},
+		{"alltypes", func(rt *rapid.T) (string, []op) {
+			// every key type and parameter combination of the key generator through its class factory
+			c := rapid.SampledFrom([]keys.Class{keys.AEAD, keys.DAEAD, keys.MAC, keys.PRF, keys.Signature, keys.Hybrid, keys.Streaming, keys.Deriver}).Draw(rt, "keyclass")
+			info := keys.DrawUsable(rt, "key", c)
+			if info.Type == "SlhDsa" && info.Fields["sig_type"] == "SMALL_SIGNATURE" {
+				rt.Skip("SLH-DSA s sets are too slow under the race detector")
+			}
+			if c == keys.Signature || c == keys.Hybrid {
+				callCap = 48
+			}
+			h := tk.Must(tk.HandleFromKey(info.Key))
+			x, y := shared(gen.Bytes(rt, "x", 200)), shared(gen.Bytes(rt, "y", 40))
+			wantX := append([]byte{}, x...)
+			desc := "all-types: " + info.Desc
+			switch c {
+			case keys.AEAD:
+				a := tk.Must(aead.New(h))
+				ct := tk.Must(a.Encrypt(x, y))
+				return desc, []op{{"Encrypt+Decrypt", func() error {
+					c2, err := a.Encrypt(x, y)
+					if err != nil {
+						return err
+					}
+					p, err := a.Decrypt(c2, y)
+					if err != nil || !bytes.Equal(p, wantX) {
+						return fmt.Errorf("decrypt: %x, %v", p, err)
+					}
+					return nil
+				}}, {"Decrypt", func() error {
+					p, err := a.Decrypt(ct, y)
+					if err != nil || !bytes.Equal(p, wantX) {
+						return fmt.Errorf("decrypt: %x, %v", p, err)
+					}
+					return nil
+				}}}
+			case keys.DAEAD:
+				d := tk.Must(daead.New(h))
+				want := tk.Must(d.EncryptDeterministically(x, y))
+				return desc, []op{{"EncryptDeterministically", func() error {
+					c2, err := d.EncryptDeterministically(x, y)
+					if err != nil || !bytes.Equal(c2, want) {
+						return fmt.Errorf("ciphertext differs: %v", err)
+					}
+					return nil
+				}}, {"DecryptDeterministically", func() error {
+					p, err := d.DecryptDeterministically(want, y)
+					if err != nil || !bytes.Equal(p, wantX) {
+						return fmt.Errorf("decrypt: %v", err)
+					}
+					return nil
+				}}}
+			case keys.MAC:
+				m := tk.Must(mac.New(h))
+				want := tk.Must(m.ComputeMAC(x))
+				return desc, []op{{"ComputeMAC", func() error {
+					t2, err := m.ComputeMAC(x)
+					if err != nil || !bytes.Equal(t2, want) {
+						return fmt.Errorf("tag differs: %v", err)
+					}
+					return nil
+				}}, {"VerifyMAC", func() error { return m.VerifyMAC(want, x) }}}
+			case keys.PRF:
+				s := tk.Must(prf.NewPRFSet(h))
+				want := tk.Must(s.ComputePrimaryPRF(x, 16))
+				return desc, []op{{"ComputePrimaryPRF", func() error {
+					o, err := s.ComputePrimaryPRF(x, 16)
+					if err != nil || !bytes.Equal(o, want) {
+						return fmt.Errorf("output differs: %v", err)
+					}
+					return nil
+				}}}
+			case keys.Signature:
+				s := tk.Must(signature.NewSigner(h))
+				v := tk.Must(signature.NewVerifier(tk.Must(h.Public())))
+				sig := tk.Must(s.Sign(x))
+				return desc, []op{{"Sign+Verify", func() error {
+					g, err := s.Sign(x)
+					if err != nil {
+						return err
+					}
+					return v.Verify(g, x)
+				}}, {"Verify", func() error { return v.Verify(sig, x) }}}
+			case keys.Hybrid:
+				e := tk.Must(hybrid.NewHybridEncrypt(tk.Must(h.Public())))
+				d := tk.Must(hybrid.NewHybridDecrypt(h))
+				ct := tk.Must(e.Encrypt(x, y))
+				return desc, []op{{"Encrypt+Decrypt", func() error {
+					c2, err := e.Encrypt(x, y)
+					if err != nil {
+						return err
+					}
+					p, err := d.Decrypt(c2, y)
+					if err != nil || !bytes.Equal(p, wantX) {
+						return fmt.Errorf("decrypt: %v", err)
+					}
+					return nil
+				}}, {"Decrypt", func() error {
+					p, err := d.Decrypt(ct, y)
+					if err != nil || !bytes.Equal(p, wantX) {
+						return fmt.Errorf("decrypt: %v", err)
+					}
+					return nil
+				}}}
+			case keys.Streaming:
+				sa := tk.Must(streamingaead.New(h))
+				return desc, []op{{"NewEncryptingWriter+NewDecryptingReader", func() error {
+					var buf bytes.Buffer
+					w, err := sa.NewEncryptingWriter(&buf, y)
+					if err != nil {
+						return err
+					}
+					if _, err := w.Write(x); err != nil {
+						return err
+					}
+					if err := w.Close(); err != nil {
+						return err
+					}
+					r, err := sa.NewDecryptingReader(bytes.NewReader(buf.Bytes()), y)
+					if err != nil {
+						return err
+					}
+					var out bytes.Buffer
+					if _, err := out.ReadFrom(r); err != nil || !bytes.Equal(out.Bytes(), wantX) {
+						return fmt.Errorf("stream round trip: %v", err)
+					}
+					return nil
+				}}}
+			default: // Deriver
+				d := tk.Must(keyderivation.New(h))
+				ser := func(hh *keyset.Handle) []byte {
+					var buf bytes.Buffer
+					if err := insecurecleartextkeyset.Write(hh, keyset.NewBinaryWriter(&buf)); err != nil {
+						panic(err)
+					}
+					return buf.Bytes()
+				}
+				want := ser(tk.Must(d.DeriveKeyset(x)))
+				return desc, []op{{"DeriveKeyset", func() error {
+					hh, err := d.DeriveKeyset(x)
+					if err != nil {
+						return err
+					}
+					if !bytes.Equal(ser(hh), want) {
+						return fmt.Errorf("derived keyset differs")
+					}
+					return nil
+				}}}
+			}
+		}},
 		{"handle", func(rt *rapid.T) (string, []op) {
 			m := keyset.NewManager()
 			var first uint32
@@ -549,6 +699,9 @@ func builders() []builder {
 	}
 }
 
+// callCap bounds goroutines x calls for expensive key types (set by a builder, reset per case).
+var callCap int
+
 var logMu sync.Mutex
 
 func logConfig(cfg map[string]any) {
@@ -568,9 +721,13 @@ func TestConcurrentUse(t *testing.T) {
 		entropy := rapid.Uint64().Draw(rt, "entropy")
 		detrand.Seed(entropy)
 		b := rapid.SampledFrom(bs).Draw(rt, "class")
+		callCap = 0
 		desc, ops := b.build(rt)
 		g := rapid.IntRange(2, 16).Draw(rt, "goroutines")
 		k := rapid.IntRange(4, 40).Draw(rt, "calls")
+		if callCap > 0 && g*k > callCap {
+			k = max(2, callCap/g)
+		}
 		yield := rapid.IntRange(0, 3).Draw(rt, "yield_every")
 		sched := rapid.SliceOfN(rapid.IntRange(0, len(ops)-1), 8, 32).Draw(rt, "schedule")
 		cfg := map[string]any{"class": b.class, "primitive": desc, "goroutines": g, "calls_each": k, "yield_every": yield, "schedule": sched, "entropy": entropy}
